@@ -300,7 +300,7 @@ Sibling(f) ==
     /\ UNCHANGED <<ver, proto, built, ev, sigs, redacted, ids, hist, wire>>
 
 \* --- Tamper(T, hm) on the wire, then ReparseUntrusted -------------------------------------------------------------
-TamperElems == {"con_out_chg", "con_out_add", "con_in", "top_add", "origin_chg", "depth_chg", "unsigned",
+TamperElems == {"con_out_chg", "con_out_add", "con_in", "tpi_chg", "top_add", "origin_chg", "depth_chg", "unsigned",
                 "age_ts", "outdest", "event_id"}
 HashModes == {"keep", "garbage", "rehash", "remove"}
 
@@ -309,6 +309,7 @@ InKeys(v, e) == (DOMAIN e.con \cap KeptContentKeys(RedactionAlgo(v), e)) \ {Nest
 TamperApplicable(v, e, x) ==
     CASE x = "con_out_chg" -> OutKeys(v, e) # {}
       [] x = "con_in" -> InKeys(v, e) # {}
+      [] x = "tpi_chg" -> e.tpi.obj /\ "signed" \in DOMAIN e.tpi.keys     \* content.third_party_invite.signed
       [] x = "origin_chg" -> "origin" \in DOMAIN e.top
       [] OTHER -> TRUE
 ApplicableElems(v, e) == {x \in TamperElems : TamperApplicable(v, e, x)}
@@ -318,7 +319,11 @@ ApplyT(v, e, T) ==
     LET e1 == IF "con_out_chg" \in T THEN SetCon(e, Pick(OutKeys(v, e)), "tampered") ELSE e
         e2 == IF "con_out_add" \in T THEN SetCon(e1, "zz_added", "tampered") ELSE e1
         e3 == IF "con_in" \in T THEN SetCon(e2, Pick(InKeys(v, e)), "tampered") ELSE e2
-        e4 == OnIf("top_add" \in T, e3, "zz_top", "tampered")
+        e3b == IF "tpi_chg" \in T
+               THEN [e3 EXCEPT !.tpi = [obj |-> TRUE, keys |-> [k \in DOMAIN e3.tpi.keys |->
+                                                                    IF k = "signed" THEN "tampered" ELSE e3.tpi.keys[k]]]]
+               ELSE e3
+        e4 == OnIf("top_add" \in T, e3b, "zz_top", "tampered")
         e5 == OnIf("origin_chg" \in T, e4, "origin", "tampered")
         e6 == OnIf("depth_chg" \in T, e5, "depth", "tampered")
         e7 == OnIf("unsigned" \in T, e6, "unsigned", "tampered")
@@ -421,6 +426,7 @@ Mismatch == out.hm \in {"garbage", "remove"} \/ (out.hm = "keep" /\ out.T \cap H
 Redactable(x) ==
     CASE x = "con_out_chg" -> TRUE
       [] x = "con_out_add" -> ~KeepAllContent(A, proto.type)
+      [] x = "tpi_chg" -> "signed" \notin NestedKeep(A, proto.type) /\ ~KeepAllContent(A, proto.type)
       [] x = "top_add" -> TRUE
       [] x = "origin_chg" -> "origin" \notin TopKeep(A)
       [] x \in {"unsigned", "age_ts", "outdest"} -> TRUE
